@@ -96,6 +96,13 @@ func (t *Timer) Stop() bool {
 	return was
 }
 
+func (t *Timer) Reset(d Duration) bool {
+	was := t.t.active
+	Now() // the engine reads the clock when a timer is re-armed
+	t.t.active = true
+	return was
+}
+
 func (t *Ticker) Stop() { t.t.active = false }
 
 func Sleep(d Duration) { Now(); Now() }
@@ -117,6 +124,7 @@ func fire(t *timer) {
 }
 
 func init() {
+	vrt.ResetHooks = append(vrt.ResetHooks, func() { timers = nil })
 	vrt.AdvanceHook = func(all bool) {
 		for round := 0; round < 4; round++ {
 			firedAny := false
